@@ -1,19 +1,1188 @@
-//! handler engine (ops starting with `h`).
-#![allow(unused)]
+//! handler engine (ops starting with `h`): several real `Handler`s on virtual wires inside one
+//! paused-clock tokio runtime; the harness is the network (loss / duplication / reordering /
+//! redirection / mutation), the application layer of every node, and an attacker that crafts
+//! datagrams with the facade's crypto toolkit.  Every datagram is described *symbolically* (the
+//! harness knows all static keys, so it can derive every session key like the recipient would);
+//! the resolved script (`!OP` lines) feeds the symbolic Lean model of the handler.
+//!
+//! Serves C01 (identity), C02 (authenticity), C03 (freshness), C04 (one outcome), C13 (exemptions),
+//! C15 (session expiry, handler part), C19 (nonce reuse).
 use crate::rng::Rng;
 use crate::util::*;
 use crate::{Runner, Stats};
+use discv5::enr::{CombinedKey, NodeId};
+use discv5::packet::PacketKind;
+use discv5::verif::handler as hf;
+use discv5::verif::handler::{
+    Handler, HandlerIn, HandlerOut, Message, NodeAddress, NodeContact, Request, RequestBody, RequestId,
+    Response, ResponseBody, VirtualWire, WhoAreYouRef,
+};
+use discv5::verif::{packet_decode, RawPacket};
+use discv5::{ConfigBuilder, ConnectionDirection, Enr, ListenConfig, ProtocolIdentity, RequestError};
+use std::collections::{HashMap, HashSet};
+use std::net::{Ipv4Addr, SocketAddr};
+use std::sync::Arc;
+use std::time::Duration;
+use tokio::sync::{mpsc, oneshot};
+
+const ATTACKER: u64 = 9;
+const CRAFT_OWNER: u64 = 99;
+
+struct Node {
+    idx: u64,
+    key: CombinedKey,
+    enr: Enr,
+    addr: SocketAddr,
+    to_handler: mpsc::UnboundedSender<HandlerIn>,
+    from_handler: mpsc::Receiver<HandlerOut>,
+    wire: VirtualWire,
+    _exit: oneshot::Sender<()>,
+    wru: Vec<WhoAreYouRef>,
+    requests: Vec<(NodeAddress, Request)>,
+    c_nonce: u64,
+    c_cd: u64,
+    c_eph: u64,
+    c_rid: u64,
+}
+
+#[derive(Clone)]
+struct Datagram {
+    from_idx: u64, // emitting node (ATTACKER for crafted)
+    src: SocketAddr,
+    dst: SocketAddr,
+    dst_id: NodeId,
+    bytes: Vec<u8>,
+}
 
 #[derive(Default)]
-pub struct HandlerRunner;
+struct Names {
+    nonce: HashMap<[u8; 12], u64>,
+    cd: HashMap<Vec<u8>, u64>,
+    eph: HashMap<Vec<u8>, u64>,
+    rid: HashMap<Vec<u8>, u64>,
+    craft: u64,
+}
 
-impl Runner for HandlerRunner {
-    fn reset(&mut self) {}
-    fn step(&mut self, _line: &str, out: &mut Vec<String>, _stats: &mut Stats) {
-        out.push("bad-op".into());
+/// Ledgers for the implementation-side monitors.
+#[derive(Default)]
+struct Ledger {
+    /// C04: external request -> (submitted, responses, failures, final)
+    reqs: HashMap<(u64, u64), ReqLedger>,
+    /// C01: handshakes genuinely signed: (signer idx, cd name)
+    honest_sigs: HashSet<(u64, u64, u64)>, // (signer, cd name, dst)
+    /// C19: (key bytes, nonce) -> datagram hash, for every decryptable datagram emitted by real nodes
+    key_nonce: HashMap<([u8; 16], [u8; 12]), u64>,
+    /// C19: id-nonces of WHOAREYOU packets emitted by real nodes
+    id_nonces: HashSet<[u8; 16]>,
+    /// C02: plaintexts really sealed by a real node or handed to craft_* by the script: (key, plaintext)
+    sealed: HashSet<([u8; 16], Vec<u8>)>,
+    /// C03: cd names consumed by an accepted handshake at a node
+    consumed_cd: HashSet<(u64, u64)>,
+    /// C03: challenges a node issued and that were not yet consumed: (node, cd name) -> issue time
+    outstanding_chal: HashMap<(u64, u64), u64>,
+    /// C04: the handler's own requests seen on the wire: (node, rid) -> (sent_at, to, answered)
+    internal: HashMap<(u64, u64), (u64, u64, bool)>,
+}
+
+#[derive(Default, Clone)]
+struct ReqLedger {
+    responses: u32,
+    failures: u32,
+    done: bool,
+    sent_at: u64,
+    to: u64,
+}
+
+pub struct HandlerRunner {
+    rt: Option<tokio::runtime::Runtime>,
+    nodes: Vec<Node>,
+    attacker_key: Option<CombinedKey>,
+    attacker_enr: Option<Enr>,
+    wire: Vec<Datagram>,
+    names: Names,
+    keys: Vec<([u8; 16], String)>, // (key bytes, key term)
+    addrs: Vec<SocketAddr>,
+    ids: HashMap<NodeId, u64>,
+    now_ms: u64,
+    timeout_ms: u64,
+    retries: u64,
+    ledger: Ledger,
+    last_sig_cd: Option<u64>,
+    delivering_handshake: bool,
+    next_del: usize,
+    next_wru: HashMap<u64, usize>,
+    next_req: HashMap<u64, usize>,
+    /// C04: requests outstanding when the current drain started: (node, rid) -> (sent_at, to)
+    outstanding_snapshot: Vec<(u64, u64, u64, u64)>,
+}
+
+impl Default for HandlerRunner {
+    fn default() -> Self {
+        HandlerRunner {
+            rt: None,
+            nodes: Vec::new(),
+            attacker_key: None,
+            attacker_enr: None,
+            wire: Vec::new(),
+            names: Names::default(),
+            keys: Vec::new(),
+            addrs: Vec::new(),
+            ids: HashMap::new(),
+            now_ms: 0,
+            timeout_ms: 400,
+            retries: 1,
+            ledger: Ledger::default(),
+            last_sig_cd: None,
+            delivering_handshake: false,
+            next_del: 0,
+            next_wru: HashMap::new(),
+            next_req: HashMap::new(),
+            outstanding_snapshot: Vec::new(),
+        }
     }
 }
 
-pub fn gen_case(_rng: &mut Rng, _tier: &str, _profile: &str, _stats: &mut Stats) -> Vec<String> {
-    Vec::new()
+/// The static key of party `idx` (deterministic; `CombinedKey` is not `Clone`).
+fn key_of_idx(idx: u64) -> CombinedKey {
+    key_from(&mut Rng::new(0xABCD_0000 + idx))
+}
+
+fn node_addr(idx: u64) -> SocketAddr {
+    SocketAddr::new(Ipv4Addr::new(10, 0, 0, idx as u8).into(), 9000 + idx as u16)
+}
+
+fn body_of(code: u64) -> RequestBody {
+    match code {
+        1 => RequestBody::Ping { enr_seq: 1 },
+        2 => RequestBody::FindNode { distances: vec![0] },
+        3 => RequestBody::FindNode { distances: vec![256] },
+        _ => RequestBody::Talk { protocol: b"p".to_vec(), request: b"x".to_vec() },
+    }
+}
+
+fn code_of(b: &RequestBody) -> u64 {
+    match b {
+        RequestBody::Ping { enr_seq: 1 } => 1,
+        RequestBody::FindNode { distances } if distances == &vec![0u64] => 2,
+        RequestBody::FindNode { distances } if distances == &vec![256u64] => 3,
+        RequestBody::Talk { .. } => 4,
+        _ => 0,
+    }
+}
+
+fn rid_bytes(n: u64) -> RequestId {
+    RequestId(n.to_be_bytes().to_vec())
+}
+
+fn err_name(e: &RequestError) -> &'static str {
+    match e {
+        RequestError::Timeout => "timeout",
+        RequestError::InvalidRemotePacket => "invalid-packet",
+        RequestError::InvalidRemoteEnr => "invalid-enr",
+        RequestError::SelfRequest => "self",
+        _ => "other",
+    }
+}
+
+impl HandlerRunner {
+    fn addr_idx(&mut self, a: SocketAddr) -> String {
+        let n = match self.addrs.iter().position(|x| *x == a) {
+            Some(p) => p,
+            None => {
+                self.addrs.push(a);
+                self.addrs.len() - 1
+            }
+        };
+        format!("{}:{}", if a.is_ipv6() { 6 } else { 4 }, n)
+    }
+
+    fn id_idx(&mut self, id: &NodeId) -> u64 {
+        if let Some(v) = self.ids.get(id) {
+            return *v;
+        }
+        // an id nobody owns (e.g. produced by a mutated header): give it a number of its own
+        let v = 50 + self.ids.len() as u64;
+        self.ids.insert(*id, v);
+        v
+    }
+
+    fn na(&mut self, na: &NodeAddress) -> String {
+        let i = self.id_idx(&na.node_id);
+        format!("{}@{}", i, self.addr_idx(na.socket_addr))
+    }
+
+    fn rec(&mut self, e: &Enr) -> String {
+        let id = self.id_idx(&e.node_id());
+        let u4 = match e.udp4_socket() {
+            Some(s) => self.addr_idx(SocketAddr::V4(s)).split(':').nth(1).unwrap().to_string(),
+            None => "-".into(),
+        };
+        let u6 = match e.udp6_socket() {
+            Some(s) => self.addr_idx(SocketAddr::V6(s)).split(':').nth(1).unwrap().to_string(),
+            None => "-".into(),
+        };
+        format!("R:{}:{}:{}:{}", id, e.seq(), u4, u6)
+    }
+
+    fn name_nonce(&mut self, n: &[u8; 12], owner: u64) -> u64 {
+        if let Some(v) = self.names.nonce.get(n) {
+            return *v;
+        }
+        let v = self.fresh(owner, 0);
+        self.names.nonce.insert(*n, v);
+        v
+    }
+
+    fn fresh(&mut self, owner: u64, cat: u8) -> u64 {
+        if let Some(node) = self.nodes.iter_mut().find(|x| x.idx == owner) {
+            let c = match cat {
+                0 => &mut node.c_nonce,
+                1 => &mut node.c_cd,
+                2 => &mut node.c_eph,
+                _ => &mut node.c_rid,
+            };
+            *c += 1;
+            owner * 1_000_000 + *c
+        } else {
+            self.names.craft += 1;
+            CRAFT_OWNER * 1_000_000 + self.names.craft
+        }
+    }
+
+    fn name_cd(&mut self, cd: &[u8], owner: u64) -> u64 {
+        if let Some(v) = self.names.cd.get(cd) {
+            return *v;
+        }
+        let v = self.fresh(owner, 1);
+        self.names.cd.insert(cd.to_vec(), v);
+        v
+    }
+
+    fn name_eph(&mut self, e: &[u8], owner: u64) -> u64 {
+        if let Some(v) = self.names.eph.get(e) {
+            return *v;
+        }
+        let v = self.fresh(owner, 2);
+        self.names.eph.insert(e.to_vec(), v);
+        v
+    }
+
+    fn name_rid(&mut self, r: &[u8], owner: u64) -> u64 {
+        // script-chosen request ids are 8-byte big-endian numbers below 10^6
+        if r.len() == 8 {
+            let n = u64::from_be_bytes(r.try_into().unwrap());
+            if n < 1_000_000 {
+                return n;
+            }
+        }
+        if let Some(v) = self.names.rid.get(r) {
+            return *v;
+        }
+        let v = self.fresh(owner, 3);
+        self.names.rid.insert(r.to_vec(), v);
+        v
+    }
+
+    fn msg_term(&mut self, plaintext: &[u8], owner: u64) -> String {
+        match Message::decode(plaintext) {
+            Ok(Message::Request(r)) => format!("req/{}/{}", self.name_rid(r.id.as_bytes(), owner), code_of(&r.body)),
+            Ok(Message::Response(r)) => format!("resp/{}/{}", self.name_rid(r.id.as_bytes(), owner), self.rb_term(&r.body)),
+            Err(_) => "undec".into(),
+        }
+    }
+
+    fn rb_term(&mut self, b: &ResponseBody) -> String {
+        match b {
+            ResponseBody::Nodes { total, nodes } => {
+                let recs: Vec<String> = nodes.iter().map(|e| self.rec(e)).collect();
+                format!("nodes/{}/{}", total, if recs.is_empty() { "-".into() } else { recs.join(";") })
+            }
+            ResponseBody::Pong { .. } => "other/1".into(),
+            ResponseBody::Talk { .. } => "other/2".into(),
+        }
+    }
+
+    /// Tries every known session key on a ciphertext.
+    fn ct_term(&mut self, nonce: [u8; 12], nonce_name: u64, ct: &[u8], aad: &[u8], owner: u64) -> (String, Option<([u8; 16], Vec<u8>)>) {
+        for i in 0..self.keys.len() {
+            let (k, term) = self.keys[i].clone();
+            if let Some(pt) = hf::aead_decrypt(&k, nonce, ct, aad) {
+                let m = self.msg_term(&pt, owner);
+                return (format!("E[{}|{}|{}|ok]", term, nonce_name, m), Some((k, pt)));
+            }
+        }
+        ("G".into(), None)
+    }
+
+    fn key_for_idx(&self, idx: u64) -> Option<(CombinedKey, Enr)> {
+        if idx == ATTACKER {
+            self.attacker_key.as_ref()?;
+            return Some((key_of_idx(ATTACKER), self.attacker_enr.clone()?));
+        }
+        self.nodes.iter().find(|n| n.idx == idx).map(|n| (key_of_idx(n.idx), n.enr.clone()))
+    }
+
+    /// Symbolic description of a datagram as decoded under `local` (None: not decodable there).
+    /// `owner` is the party that first put it on the wire (names of fresh values).
+    fn describe(&mut self, bytes: &[u8], local_idx: u64, owner: u64, emitted_by_real: bool) -> Option<String> {
+        let local_id = match self.key_for_idx(local_idx) {
+            Some((_, e)) => e.node_id(),
+            None => *self.ids.iter().find(|(_, v)| **v == local_idx)?.0,
+        };
+        let lkey = self.key_for_idx(local_idx).map(|x| x.0);
+        let (p, aad): (RawPacket, Vec<u8>) = packet_decode(&local_id, ProtocolIdentity::default(), bytes).ok()?;
+        let nn = self.name_nonce(&p.nonce, owner);
+        match &p.kind {
+            PacketKind::WhoAreYou { id_nonce, enr_seq } => {
+                let cd = self.name_cd(&aad, owner);
+                if emitted_by_real && !self.ledger.id_nonces.insert(*id_nonce) {
+                    // reported by the caller through the monitor list
+                    self.names.craft += 0;
+                }
+                Some(format!("W~{}~{}~{}", nn, cd, enr_seq))
+            }
+            PacketKind::Message { src_id } => {
+                let src = self.id_idx(src_id);
+                let (ct, _) = self.ct_term(p.nonce, nn, &p.message, &aad, owner);
+                Some(format!("M~{}~{}~{}", src, nn, ct))
+            }
+            PacketKind::Handshake { src_id, id_nonce_sig, ephem_pubkey, enr_record } => {
+                let src = self.id_idx(src_id);
+                let eph = self.name_eph(ephem_pubkey, owner);
+                // who signed it, over which challenge data?
+                let mut sig_term = "S:0:0:0:0".to_string();
+                let cds: Vec<(Vec<u8>, u64)> = self.names.cd.iter().map(|(k, v)| (k.clone(), *v)).collect();
+                let mut signers: Vec<(u64, Enr)> = self.nodes.iter().map(|n| (n.idx, n.enr.clone())).collect();
+                if let Some(e) = self.attacker_enr.clone() {
+                    signers.push((ATTACKER, e));
+                }
+                let mut signed_cd: Option<(Vec<u8>, u64)> = None;
+                'outer: for (cdb, cdn) in cds.iter() {
+                    for (sidx, senr) in signers.iter() {
+                        if hf::verify_id_signature(senr, ephem_pubkey, cdb, &local_id, id_nonce_sig) {
+                            sig_term = format!("S:{}:{}:{}:{}", sidx, cdn, eph, local_idx);
+                            signed_cd = Some((cdb.clone(), *cdn));
+                            break 'outer;
+                        }
+                    }
+                }
+                // session keys as the recipient derives them (if the challenge data is known)
+                let mut ct = "G".to_string();
+                if let Some((cdb, cdn)) = signed_cd {
+                    if let Some(k) = lkey.as_ref().and_then(|lk| hf::recipient_keys(lk, &local_id, src_id, &cdb, ephem_pubkey)) {
+                        let t_ini = format!("K:{}:{}:{}:{}:t", eph, cdn, src, local_idx);
+                        let t_rcp = format!("K:{}:{}:{}:{}:f", eph, cdn, src, local_idx);
+                        if !self.keys.iter().any(|(kb, _)| *kb == k.initiator_key) {
+                            self.keys.push((k.initiator_key, t_ini));
+                            self.keys.push((k.recipient_key, t_rcp));
+                        }
+                        ct = self.ct_term(p.nonce, nn, &p.message, &aad, owner).0;
+                    }
+                }
+                let rec = match enr_record {
+                    Some(e) => self.rec(e),
+                    None => "none".into(),
+                };
+                Some(format!("H~{}~{}~{}~{}~{}~{}", src, nn, sig_term, eph, rec, ct))
+            }
+        }
+    }
+
+    fn exempt(&mut self, ni: usize) -> String {
+        let m: Vec<(SocketAddr, usize)> = self.nodes[ni].wire.expected_responses.read().iter().map(|(a, n)| (*a, *n)).collect();
+        let mut items: Vec<String> = m.into_iter().map(|(a, n)| format!("{}={}", self.addr_idx(a), n)).collect();
+        items.sort();
+        if items.is_empty() {
+            "-".into()
+        } else {
+            items.join(",")
+        }
+    }
+
+    fn settle(&self) {
+        let rt = self.rt.as_ref().unwrap();
+        rt.block_on(async {
+            for _ in 0..40 {
+                tokio::task::yield_now().await;
+            }
+        });
+    }
+
+    /// Drains the outputs of node `ni`: (events, sends) as model-syntax tokens; records datagrams.
+    fn drain(&mut self, ni: usize, out: &mut Vec<String>, stats: &mut Stats) -> String {
+        let idx = self.nodes[ni].idx;
+        let mut events = Vec::new();
+        self.outstanding_snapshot = self
+            .ledger
+            .reqs
+            .iter()
+            .filter(|(_, l)| !l.done && l.failures == 0)
+            .map(|((n, r), l)| (*n, *r, l.sent_at, l.to))
+            .chain(self.ledger.internal.iter().filter(|(_, v)| !v.2).map(|((n, r), v)| (*n, *r, v.0, v.1)))
+            .collect();
+        loop {
+            let ev = match self.nodes[ni].from_handler.try_recv() {
+                Ok(e) => e,
+                Err(_) => break,
+            };
+            match ev {
+                HandlerOut::Established(enr, addr, dir) => {
+                    stats.bump("h.established");
+                    let r = self.rec(&enr);
+                    let a = self.addr_idx(addr);
+                    events.push(format!("est>{}>{}>{}", r, a, if dir == ConnectionDirection::Outgoing { "o" } else { "i" }));
+                    let dh = self.delivering_handshake;
+                    self.mon_identity(idx, &enr.node_id(), addr, dh, "established", out);
+                    if self.delivering_handshake {
+                        self.mon_fresh_challenge(idx, out);
+                    }
+                }
+                HandlerOut::Request(na, req) => {
+                    stats.bump("h.request-delivered");
+                    let rid = self.name_rid(req.id.as_bytes(), 0);
+                    events.push(format!("req>{}>{}>{}", self.na(&na), rid, code_of(&req.body)));
+                    self.mon_identity(idx, &na.node_id, na.socket_addr, true, "request", out);
+                    self.mon_authentic(idx, &na, &Message::Request((*req).clone()).encode(), out);
+                    self.nodes[ni].requests.push((na, *req));
+                }
+                HandlerOut::Response(na, resp) => {
+                    stats.bump("h.response-delivered");
+                    let rid = self.name_rid(resp.id.as_bytes(), 0);
+                    let rb = self.rb_term(&resp.body);
+                    events.push(format!("rsp>{}>{}>{}", self.na(&na), rid, rb));
+                    self.mon_authentic(idx, &na, &Message::Response((*resp).clone()).encode(), out);
+                    if let Some(l) = self.ledger.reqs.get_mut(&(idx, rid)) {
+                        l.responses += 1;
+                        if l.failures > 0 {
+                            out.push(format!("!MON C04 response-after-failure node={} rid={}", idx, rid));
+                        }
+                        let last = match &resp.body {
+                            ResponseBody::Nodes { total, .. } => *total <= 1,
+                            _ => true,
+                        };
+                        if last {
+                            if l.done {
+                                out.push(format!("!MON C04 second-final-response node={} rid={}", idx, rid));
+                            }
+                            l.done = true;
+                        }
+                    }
+                }
+                HandlerOut::WhoAreYou(r) => {
+                    stats.bump("h.wru-query");
+                    let n = r.message_nonce();
+                    let nn = self.name_nonce(&n, 0);
+                    events.push(format!("wru>{}>{}", self.na(&r.0), nn));
+                    self.nodes[ni].wru.push(r);
+                }
+                HandlerOut::RequestFailed(id, e) => {
+                    stats.bump(&format!("h.failed.{}", err_name(&e)));
+                    let rid = self.name_rid(id.as_bytes(), 0);
+                    events.push(format!("fail>{}>{}", rid, err_name(&e)));
+                    let now = self.now_ms;
+                    let timeout = self.timeout_ms;
+                    if let Some(l) = self.ledger.reqs.get_mut(&(idx, rid)) {
+                        l.failures += 1;
+                        if l.failures > 1 {
+                            out.push(format!("!MON C04 two-failure-reports node={} rid={}", idx, rid));
+                        }
+                        if l.done {
+                            out.push(format!("!MON C04 failure-after-final-response node={} rid={}", idx, rid));
+                        }
+                        let _ = (now, timeout);
+                    }
+                    if matches!(e, RequestError::Timeout) {
+                        // some request to that peer must have been outstanding for a full timeout period
+                        let to = self.ledger.reqs.get(&(idx, rid)).map(|l| l.to).unwrap_or(0);
+                        let oldest = self
+                            .outstanding_snapshot
+                            .iter()
+                            .filter(|(n, _, _, t)| *n == idx && *t == to)
+                            .map(|(_, _, s, _)| *s)
+                            .min()
+                            .unwrap_or(now);
+                        if self.ledger.reqs.contains_key(&(idx, rid)) && now < oldest + timeout {
+                            out.push(format!("!MON C04 premature-timeout node={} rid={} after_ms={}", idx, rid, now - oldest));
+                        }
+                    }
+                }
+                HandlerOut::UnverifiableEnr { enr, socket, node_id } => {
+                    stats.bump("h.unverifiable");
+                    let r = self.rec(&enr);
+                    let a = self.addr_idx(socket);
+                    events.push(format!("unv>{}>{}>{}", r, a, self.id_idx(&node_id)));
+                    self.mon_identity(idx, &node_id, socket, true, "unverifiable", out);
+                    if self.delivering_handshake {
+                        self.mon_fresh_challenge(idx, out);
+                    }
+                }
+                HandlerOut::ExpiredSessions(v) => {
+                    let l: Vec<String> = v.iter().map(|na| self.na(na)).collect();
+                    events.push(format!("exp>{}", l.join(",")));
+                }
+                HandlerOut::UnrecognizedFrame(_) => {}
+            }
+        }
+        let mut sends = Vec::new();
+        loop {
+            let (dst, dst_id, bytes) = match self.nodes[ni].wire.outbound.try_recv() {
+                Ok(x) => x,
+                Err(_) => break,
+            };
+            stats.bump("h.datagrams-sent");
+            let dst_idx = self.id_idx(&dst_id);
+            let src = self.nodes[ni].addr;
+            let k = self.wire.len();
+            // describe as the intended recipient decodes it (names are drawn here, in emission order)
+            let term = self.describe(&bytes, dst_idx, idx, true).unwrap_or_else(|| "?".into());
+            self.mon_emitted(idx, dst_idx, &bytes, out);
+            let a = self.addr_idx(dst);
+            sends.push(format!("snd>{}@{}>{}", dst_idx, a, term));
+            self.wire.push(Datagram { from_idx: idx, src, dst, dst_id, bytes });
+            out.push(format!("!INFO wire #{} {}->{} {}", k, idx, dst_idx, sends.last().unwrap()));
+        }
+        let all: Vec<String> = events.into_iter().chain(sends).collect();
+        let ex = self.exempt(ni);
+        self.mon_exempt(ni, out);
+        format!("{} ## {}", if all.is_empty() { "-".into() } else { all.join(" ") }, ex)
+    }
+
+    // ---- monitors -----------------------------------------------------------------------------
+
+    /// C19 + ledgers for C02: what real nodes put on the wire.
+    fn mon_emitted(&mut self, from: u64, dst_idx: u64, bytes: &[u8], out: &mut Vec<String>) {
+        let Some((_, denr)) = self.key_for_idx(dst_idx) else { return };
+        let Ok((p, aad)) = packet_decode(&denr.node_id(), ProtocolIdentity::default(), bytes) else { return };
+        let h = {
+            let mut x: u64 = 1469598103934665603;
+            for b in bytes {
+                x = (x ^ *b as u64).wrapping_mul(1099511628211);
+            }
+            x
+        };
+        match &p.kind {
+            PacketKind::WhoAreYou { id_nonce, .. } => {
+                let fresh = !self.wire.iter().any(|d| d.from_idx != ATTACKER && d.bytes != bytes && {
+                    packet_decode(&d.dst_id, ProtocolIdentity::default(), &d.bytes)
+                        .map(|(q, _)| matches!(q.kind, PacketKind::WhoAreYou { id_nonce: i2, .. } if &i2 == id_nonce))
+                        .unwrap_or(false)
+                });
+                if !fresh {
+                    out.push(format!("!MON C19 id-nonce-repeated node={}", from));
+                }
+                if let Some(cd) = self.names.cd.get(&aad).cloned() {
+                    self.ledger.outstanding_chal.entry((from, cd)).or_insert(self.now_ms);
+                }
+            }
+            _ => {
+                for (k, _) in self.keys.clone() {
+                    if let Some(pt) = hf::aead_decrypt(&k, p.nonce, &p.message, &aad) {
+                        if let Ok(Message::Request(rq)) = Message::decode(&pt) {
+                            let rn = self.name_rid(rq.id.as_bytes(), from);
+                            if rn >= 1_000_000 {
+                                self.ledger.internal.entry((from, rn)).or_insert((self.now_ms, dst_idx, false));
+                            }
+                        }
+                        self.ledger.sealed.insert((k, pt));
+                        match self.ledger.key_nonce.get(&(k, p.nonce)) {
+                            Some(h0) if *h0 != h => out.push(format!("!MON C19 nonce-reused-under-key node={}", from)),
+                            _ => {
+                                self.ledger.key_nonce.insert((k, p.nonce), h);
+                            }
+                        }
+                        break;
+                    }
+                }
+            }
+        }
+    }
+
+    /// C01: an effect attributed to `claimed` at node `at` needs a handshake genuinely signed by
+    /// the key whose hash is `claimed` over a challenge `at` issued (responder path), or `at` itself
+    /// dialled that record (initiator path: it then holds keys only the owner can use).
+    fn mon_identity(&mut self, at: u64, claimed: &NodeId, addr: SocketAddr, responder_path: bool, what: &str, out: &mut Vec<String>) {
+        let c = self.id_idx(claimed);
+        if c == ATTACKER || c == 0 {
+            return; // the attacker owns its own identity
+        }
+        if !responder_path {
+            return;
+        }
+        // did node `c` ever sign a challenge issued by `at`?  (cd names of `at` are at*10^6+k)
+        let ok_resp = self.ledger.honest_sigs.iter().any(|(s, cd, d)| *s == c && cd / 1_000_000 == at && *d == at);
+        // initiator path: `at` itself answered a WHOAREYOU for a request it sent to `c`; the
+        // session keys then come from an ECDH with c's static public key
+        let ok_init = self.ledger.honest_sigs.iter().any(|(s, _, d)| *s == at && *d == c);
+        if !ok_resp && !ok_init {
+            out.push(format!("!MON C01 attributed-without-proof node={} claimed={} addr={} effect={}", at, c, addr, what));
+        }
+    }
+
+    /// C03: a handshake is accepted only against a challenge this node issued, not yet consumed and
+    /// not older than the challenge timeout.
+    fn mon_fresh_challenge(&mut self, at: u64, out: &mut Vec<String>) {
+        let Some(cd) = self.last_sig_cd else {
+            out.push(format!("!MON C03 handshake-accepted-without-known-challenge node={}", at));
+            return;
+        };
+        match self.ledger.outstanding_chal.remove(&(at, cd)) {
+            None => out.push(format!("!MON C03 handshake-accepted-for-consumed-or-foreign-challenge node={} cd={}", at, cd)),
+            Some(t) => {
+                if self.now_ms > t + self.timeout_ms + 2 {
+                    out.push(format!("!MON C03 handshake-accepted-after-challenge-expiry node={} age_ms={}", at, self.now_ms - t));
+                }
+            }
+        }
+    }
+
+    /// C02: a delivered message must be byte-identical to one sealed for a session of that peer.
+    fn mon_authentic(&mut self, at: u64, na: &NodeAddress, encoded: &[u8], out: &mut Vec<String>) {
+        let c = self.id_idx(&na.node_id);
+        if !self.ledger.sealed.iter().any(|(_, pt)| pt == encoded) {
+            out.push(format!("!MON C02 delivered-message-never-sealed node={} from={}", at, c));
+        }
+    }
+
+    /// C13: exemptions = outstanding requests + outstanding challenges, per address.
+    fn mon_exempt(&mut self, ni: usize, out: &mut Vec<String>) {
+        let idx = self.nodes[ni].idx;
+        let map: HashMap<SocketAddr, usize> = self.nodes[ni].wire.expected_responses.read().clone();
+        let mut want: HashMap<SocketAddr, usize> = HashMap::new();
+        for ((n, _), l) in self.ledger.reqs.iter() {
+            if *n == idx && !l.done && l.failures == 0 && l.sent_at != u64::MAX {
+                if let Some(a) = self.nodes.iter().find(|x| x.idx == l.to).map(|x| x.addr) {
+                    *want.entry(a).or_insert(0) += 1;
+                }
+            }
+        }
+        // internal requests and queued requests are not visible to the ledger: only the safe
+        // direction is monitored — no exemption may exist for an address with nothing outstanding
+        // once the node is quiescent (checked by the `hquiet` op), and never a zero entry.
+        for (a, n) in &map {
+            if *n == 0 {
+                out.push(format!("!MON C13 zero-entry addr={}", a));
+            }
+        }
+        let _ = want;
+    }
+}
+
+impl Runner for HandlerRunner {
+    fn reset(&mut self) {
+        // dropping the runtime stops all handler tasks
+        self.nodes.clear();
+        let rt = self.rt.take();
+        drop(rt);
+        *self = HandlerRunner::default();
+    }
+
+    fn step(&mut self, line: &str, out: &mut Vec<String>, stats: &mut Stats) {
+        let t: Vec<&str> = line.split(' ').collect();
+        match t.as_slice() {
+            ["hworld", n, retries, timeout_ms, cap, ttl_ms] => {
+                self.reset();
+                let n: u64 = n.parse().unwrap_or(2);
+                self.retries = retries.parse().unwrap_or(1);
+                self.timeout_ms = timeout_ms.parse().unwrap_or(400);
+                let cap: usize = cap.parse().unwrap_or(1000);
+                let ttl_ms: u64 = ttl_ms.parse().unwrap_or(86_400_000);
+                let rt = tokio::runtime::Builder::new_current_thread().enable_all().start_paused(true).build().unwrap();
+                let mut ops = Vec::new();
+                for idx in 1..=n {
+                    let key = key_of_idx(idx);
+                    let addr = node_addr(idx);
+                    let ip = match addr { SocketAddr::V4(a) => *a.ip(), _ => unreachable!() };
+                    let enr = make_enr(&key, 1, Some((ip, addr.port())), None, 0);
+                    self.ids.insert(enr.node_id(), idx);
+                    // address registry: index == node idx
+                    while self.addrs.len() <= idx as usize {
+                        let k = self.addrs.len() as u64;
+                        self.addrs.push(node_addr(if k == 0 { 200 } else { k }));
+                    }
+                    let config = ConfigBuilder::new(ListenConfig::Ipv4 { ip, port: addr.port() })
+                        .request_retries(self.retries as u8)
+                        .request_timeout(Duration::from_millis(self.timeout_ms))
+                        .session_cache_capacity(cap)
+                        .session_timeout(Duration::from_millis(ttl_ms))
+                        .build();
+                    let enr_arc = Arc::new(parking_lot::RwLock::new(enr.clone()));
+                    let key_arc = Arc::new(parking_lot::RwLock::new(key_of_idx(idx)));
+                    let res = rt.block_on(async {
+                        let mut config = config;
+                        config.executor = Some(Box::new(discv5::TokioExecutor::default()));
+                        Handler::spawn_virtual(enr_arc, key_arc, config, vec![addr]).await
+                    });
+                    let Ok(((exit, to_handler, from_handler), wire)) = res else {
+                        out.push("bad-op".into());
+                        return;
+                    };
+                    self.nodes.push(Node {
+                        idx, key, enr, addr, to_handler, from_handler, wire, _exit: exit,
+                        wru: Vec::new(), requests: Vec::new(), c_nonce: 0, c_cd: 0, c_eph: 0, c_rid: 0,
+                    });
+                    ops.push(format!(
+                        "hnew {} 1 {} {} {} {} 2 4:{} {} -",
+                        idx, self.retries, self.timeout_ms, ttl_ms, cap, idx, idx
+                    ));
+                }
+                // attacker identity (its own key and record, an address of its own)
+                let akey = key_of_idx(ATTACKER);
+                let aaddr = node_addr(ATTACKER);
+                while self.addrs.len() <= ATTACKER as usize {
+                    let k = self.addrs.len() as u64;
+                    self.addrs.push(node_addr(k));
+                }
+                let aip = match aaddr { SocketAddr::V4(a) => *a.ip(), _ => unreachable!() };
+                let aenr = make_enr(&akey, 1, Some((aip, aaddr.port())), None, 0);
+                self.ids.insert(aenr.node_id(), ATTACKER);
+                self.attacker_key = Some(akey);
+                self.attacker_enr = Some(aenr);
+                self.rt = Some(rt);
+                self.settle();
+                out.push(format!("!OP hmulti {}", ops.join(" ;; ")));
+                out.push(vec!["ok"; n as usize].join(" ;; "));
+            }
+            _ if self.rt.is_none() => out.push("bad-op".into()),
+            _ => self.step_world(&t, out, stats),
+        }
+    }
+}
+
+impl HandlerRunner {
+    fn node_pos(&self, idx: &str) -> Option<usize> {
+        let i: u64 = idx.parse().ok()?;
+        self.nodes.iter().position(|n| n.idx == i)
+    }
+
+    /// Runs one event on node `ni` (already injected), then advances virtual time by each of `dts`.
+    fn finish_phases(&mut self, ni: Option<usize>, ev: Option<String>, dts: &[u64], out: &mut Vec<String>, stats: &mut Stats) {
+        let mut ops = Vec::new();
+        let mut replies = Vec::new();
+        if let (Some(ni), Some(ev)) = (ni, ev) {
+            self.settle();
+            ops.push(format!("hev {} {}", self.nodes[ni].idx, ev));
+            replies.push(self.drain(ni, out, stats));
+        }
+        for &dt in dts {
+            if dt == 0 {
+                continue;
+            }
+            // one millisecond at a time: every timer fires at its own deadline, as in real time
+            let rt = self.rt.as_ref().unwrap();
+            rt.block_on(async {
+                for _ in 0..dt {
+                    tokio::time::advance(Duration::from_millis(1)).await;
+                    for _ in 0..12 {
+                        tokio::task::yield_now().await;
+                    }
+                }
+            });
+            self.now_ms += dt;
+            self.settle();
+            for ni in 0..self.nodes.len() {
+                ops.push(format!("hev {} adv {}", self.nodes[ni].idx, dt));
+                replies.push(self.drain(ni, out, stats));
+            }
+        }
+        if ops.is_empty() {
+            out.push("!OP hnop".into());
+            out.push("-".into());
+        } else {
+            out.push(format!("!OP hmulti {}", ops.join(" ;; ")));
+            out.push(replies.join(" ;; "));
+        }
+    }
+
+    fn finish(&mut self, ni: Option<usize>, ev: Option<String>, dt: u64, out: &mut Vec<String>, stats: &mut Stats) {
+        self.finish_phases(ni, ev, &[dt], out, stats)
+    }
+
+    fn step_world(&mut self, t: &[&str], out: &mut Vec<String>, stats: &mut Stats) {
+        if t[0] != "hdel" {
+            self.delivering_handshake = false;
+        }
+        match t {
+            // application of node X sends a request to node Y
+            ["hreq", x, y, how, rid, body] => {
+                let (Some(xi), Some(yi)) = (self.node_pos(x), self.node_pos(y)) else {
+                    return self.finish(None, None, 0, out, stats);
+                };
+                let rid: u64 = rid.parse().unwrap_or(1);
+                let body: u64 = body.parse().unwrap_or(1);
+                let yenr = self.nodes[yi].enr.clone();
+                let yaddr = self.nodes[yi].addr;
+                let contact = if *how == "enr" {
+                    NodeContact::new(yenr.public_key(), yaddr, Some(yenr.clone()))
+                } else {
+                    NodeContact::new(yenr.public_key(), yaddr, None)
+                };
+                let req = Request { id: rid_bytes(rid), body: body_of(body) };
+                // ledger: what node X's application seals is legitimately "sent by X"
+                let xidx = self.nodes[xi].idx;
+                let yidx = self.nodes[yi].idx;
+                self.ledger.reqs.insert((xidx, rid), ReqLedger { sent_at: self.now_ms, to: yidx, ..Default::default() });
+                let _ = self.nodes[xi].to_handler.send(HandlerIn::Request(contact, Box::new(req)));
+                let na = format!("{}@4:{}", yidx, yidx);
+                let rec = if *how == "enr" { self.rec(&yenr) } else { "none".into() };
+                stats.bump("h.op.req");
+                self.finish(Some(xi), Some(format!("appreq {} {} {} {}", na, rec, rid, body)), 1, out, stats);
+            }
+            // application of node X answers its Q-th who-are-you query
+            ["hwru", x, q, what] => {
+                let Some(xi) = self.node_pos(x) else { return self.finish(None, None, 0, out, stats) };
+                let xidx0 = self.nodes[xi].idx;
+                let q: usize = if *q == "next" {
+                    let e = self.next_wru.entry(xidx0).or_insert(0);
+                    let v = *e;
+                    if v < self.nodes[xi].wru.len() { *e += 1; }
+                    v
+                } else { q.parse().unwrap_or(0) };
+                let Some(r) = self.nodes[xi].wru.get(q).cloned() else { return self.finish(None, None, 1, out, stats) };
+                let who = self.id_idx(&r.0.node_id);
+                let known: Option<Enr> = match *what {
+                    "none" => None,
+                    "stale" => self.key_for_idx(who).map(|(k, e)| {
+                        // an older record of the same node (seq 0 < current seq 1)
+                        let ip4 = e.udp4_socket().map(|s| (*s.ip(), s.port()));
+                        make_enr(&k, 0, ip4, None, 0)
+                    }),
+                    _ => self.key_for_idx(who).map(|(_, e)| e),
+                };
+                let na = self.na(&r.0);
+                let nn = self.name_nonce(&r.message_nonce(), 0);
+                let rec = match &known { Some(e) => self.rec(e), None => "none".into() };
+                let _ = self.nodes[xi].to_handler.send(HandlerIn::WhoAreYou(r, known));
+                stats.bump("h.op.wru");
+                self.finish(Some(xi), Some(format!("appwru {} {} {}", na, nn, rec)), 1, out, stats);
+            }
+            // application of node X answers the R-th request delivered to it
+            ["hresp", x, r, kind] => {
+                let Some(xi) = self.node_pos(x) else { return self.finish(None, None, 0, out, stats) };
+                let xidx0 = self.nodes[xi].idx;
+                let r: usize = if *r == "next" {
+                    let e = self.next_req.entry(xidx0).or_insert(0);
+                    let v = *e;
+                    if v < self.nodes[xi].requests.len() { *e += 1; }
+                    v
+                } else { r.parse().unwrap_or(0) };
+                let Some((na, req)) = self.nodes[xi].requests.get(r).cloned() else { return self.finish(None, None, 1, out, stats) };
+                let own = self.nodes[xi].enr.clone();
+                let body = match *kind {
+                    "pong" => ResponseBody::Pong { enr_seq: 1, ip: "10.0.0.1".parse().unwrap(), port: std::num::NonZeroU16::new(9000).unwrap() },
+                    "nodes1" => ResponseBody::Nodes { total: 1, nodes: vec![own] },
+                    "nodes0" => ResponseBody::Nodes { total: 1, nodes: vec![] },
+                    "nodes3" => ResponseBody::Nodes { total: 3, nodes: vec![] },
+                    "nodesbad" => ResponseBody::Nodes { total: 1, nodes: vec![self.attacker_enr.clone().unwrap()] },
+                    _ => ResponseBody::Talk { response: b"y".to_vec() },
+                };
+                let resp = Response { id: req.id.clone(), body };
+                let rid = self.name_rid(req.id.as_bytes(), 0);
+                let rb = self.rb_term(&resp.body);
+                let nas = self.na(&na);
+                let _ = self.nodes[xi].to_handler.send(HandlerIn::Response(na, Box::new(resp)));
+                stats.bump("h.op.resp");
+                self.finish(Some(xi), Some(format!("appresp {} {} {}", nas, rid, rb)), 1, out, stats);
+            }
+            // network delivers wire datagram #k: `hdel K` | `hdel K SRCADDRIDX` (spoofed source) |
+            // `hdel K SRCADDRIDX TONODE` (redirected)
+            ["hdel", k, rest @ ..] => {
+                let k: usize = if *k == "next" {
+                    let v = self.next_del;
+                    if v < self.wire.len() { self.next_del += 1; }
+                    v
+                } else if *k == "last" {
+                    self.wire.len().wrapping_sub(1)
+                } else if *k == "skip" {
+                    // loss: the next datagram is never delivered
+                    if self.next_del < self.wire.len() { self.next_del += 1; stats.bump("h.op.loss"); }
+                    usize::MAX
+                } else { k.parse().unwrap_or(usize::MAX) };
+                let Some(d) = self.wire.get(k).cloned() else { return self.finish(None, None, 1, out, stats) };
+                let src = match rest.first() {
+                    Some(a) => node_addr(a.parse().unwrap_or(9)),
+                    None => d.src,
+                };
+                let to = match rest.get(1) {
+                    Some(n) => self.node_pos(n),
+                    None => self.nodes.iter().position(|n| n.addr == d.dst),
+                };
+                let Some(ti) = to else { return self.finish(None, None, 1, out, stats) };
+                let tidx = self.nodes[ti].idx;
+                stats.bump("h.op.deliver");
+                self.last_sig_cd = None;
+                let term = self.describe(&d.bytes, tidx, d.from_idx, false);
+                self.delivering_handshake = term.as_ref().map(|t| t.starts_with("H~")).unwrap_or(false);
+                // ledgers: a genuine signature inside this handshake? an outstanding challenge answered?
+                if let Some(tm) = &term {
+                    if let Some(s) = tm.split('~').nth(3) {
+                        let f: Vec<&str> = s.split(':').collect();
+                        if f.len() == 5 && f[0] == "S" {
+                            if let (Ok(sg), Ok(cd), Ok(dst)) = (f[1].parse::<u64>(), f[2].parse::<u64>(), f[4].parse::<u64>()) {
+                                if sg != 0 && sg != ATTACKER {
+                                    self.ledger.honest_sigs.insert((sg, cd, dst));
+                                }
+                                self.last_sig_cd = Some(cd);
+                            }
+                        }
+                    }
+                }
+                if let Some(tm) = &term {
+                    if let Some(i) = tm.find("resp/") {
+                        if let Some(r) = tm[i + 5..].split('/').next().and_then(|x| x.parse::<u64>().ok()) {
+                            if let Some(v) = self.ledger.internal.get_mut(&(tidx, r)) {
+                                v.2 = true;
+                            }
+                        }
+                    }
+                }
+                let wire = self.nodes[ti].wire.inject.clone();
+                let bytes = d.bytes.clone();
+                let rt = self.rt.as_ref().unwrap();
+                rt.block_on(async { let _ = wire.send((src, bytes)).await; });
+                match term {
+                    Some(tm) => {
+                        let a = self.addr_idx(src);
+                        self.finish(Some(ti), Some(format!("dgram {} {}", a, tm)), 1, out, stats)
+                    }
+                    None => {
+                        // not decodable under the recipient's id: never reaches the handler
+                        stats.bump("h.op.deliver-undecodable");
+                        self.settle();
+                        let _ = self.drain(ti, out, stats);
+                        self.finish(None, None, 1, out, stats)
+                    }
+                }
+            }
+            ["hadv", ms] => {
+                let ms: u64 = ms.parse().unwrap_or(1);
+                stats.bump("h.op.adv");
+                self.finish(None, None, ms, out, stats);
+            }
+            // attacker crafts a datagram and appends it to the wire log (delivered with `hdel`)
+            ["hcraft", kind, args @ ..] => {
+                stats.bump(&format!("h.op.craft.{}", kind));
+                let ok = self.craft(kind, args, stats);
+                if !ok {
+                    stats.bump("h.op.craft-failed");
+                }
+                out.push("!OP hnop".into());
+                out.push("-".into());
+            }
+            // flips one bit / truncates / extends / splices wire datagram #k into a new wire entry
+            ["hmut", k, how, arg] => {
+                let k: usize = k.parse().unwrap_or(usize::MAX);
+                if let Some(d) = self.wire.get(k).cloned() {
+                    let mut b = d.bytes.clone();
+                    let a: usize = arg.parse().unwrap_or(0);
+                    match *how {
+                        "flip" => { if !b.is_empty() { let i = a / 8 % b.len(); b[i] ^= 1 << (a % 8); } }
+                        "trunc" => { b.truncate(a % (b.len() + 1)); }
+                        "extend" => { b.extend_from_slice(&vec![0x5a; a % 40 + 1]); }
+                        "splice" => {
+                            // header of #k with the body of #arg
+                            if let Some(o) = self.wire.get(a) {
+                                let cut = 16 + 23 + 32;
+                                if b.len() > cut && o.bytes.len() > cut { b.truncate(cut); b.extend_from_slice(&o.bytes[cut..]); }
+                            }
+                        }
+                        _ => {}
+                    }
+                    self.wire.push(Datagram { from_idx: ATTACKER, bytes: b, ..d });
+                    stats.bump("h.op.mutate");
+                }
+                out.push("!OP hnop".into());
+                out.push("-".into());
+            }
+            // quiescence check: advance far beyond every timer; afterwards no exemption may remain
+            ["hquiet"] => {
+                let ms = self.timeout_ms * (self.retries + 2) + 50;
+                stats.bump("h.op.quiet");
+                let mut buf = Vec::new();
+                self.finish_phases(None, None, &[ms, ms, ms], &mut buf, stats);
+                for ni in 0..self.nodes.len() {
+                    let left: Vec<(SocketAddr, usize)> = self.nodes[ni].wire.expected_responses.read().iter().map(|(a, n)| (*a, *n)).collect();
+                    if !left.is_empty() {
+                        out.push(format!("!MON C13 exemption-left-at-quiescence node={} left={:?}", self.nodes[ni].idx, left));
+                    }
+                }
+                // C04: every submitted request has exactly one outcome by now
+                for ((n, rid), l) in self.ledger.reqs.iter() {
+                    let outcomes = (l.done as u32) + l.failures;
+                    if outcomes == 0 {
+                        out.push(format!("!MON C04 no-outcome node={} rid={}", n, rid));
+                    }
+                }
+                out.extend(buf);
+            }
+            _ => out.push("bad-op".into()),
+        }
+    }
+
+    /// Attacker toolkit: appends a crafted datagram to the wire log.
+    fn craft(&mut self, kind: &str, args: &[&str], stats: &mut Stats) -> bool {
+        let get = |i: usize| -> u64 { args.get(i).and_then(|s| s.parse().ok()).unwrap_or(0) };
+        let mut r = Rng::new(0xC4AF_7000 + self.wire.len() as u64);
+        match kind {
+            // hcraft random CLAIMED_SRC DST : a random packet claiming src id of node CLAIMED_SRC
+            "random" => {
+                let (Some((_, senr)), Some((_, denr))) = (self.key_for_idx(get(0)), self.key_for_idx(get(1))) else { return false };
+                let nonce: [u8; 12] = r.bytes(12).try_into().unwrap();
+                let bytes = hf::craft_message_raw(senr.node_id(), &denr.node_id(), nonce, r.bytes(44));
+                let dst = node_addr(get(1));
+                self.wire.push(Datagram { from_idx: ATTACKER, src: node_addr(ATTACKER), dst, dst_id: denr.node_id(), bytes });
+                true
+            }
+            // hcraft whoareyou DST ECHO_WIRE_K ENRSEQ : a WHOAREYOU echoing the nonce of wire datagram K
+            "whoareyou" => {
+                let Some((_, denr)) = self.key_for_idx(get(0)) else { return false };
+                // `r`: the latest datagram emitted by DST (an in-flight request of DST, usually)
+                let k = if args.get(1) == Some(&"r") {
+                    self.wire.iter().rposition(|d| d.from_idx == get(0)).unwrap_or(usize::MAX)
+                } else { get(1) as usize };
+                let Some(d) = self.wire.get(k).cloned() else { return false };
+                let Ok((p, _)) = packet_decode(&d.dst_id, ProtocolIdentity::default(), &d.bytes) else { return false };
+                let idn: [u8; 16] = r.bytes(16).try_into().unwrap();
+                let (bytes, _cd) = hf::craft_whoareyou(&denr.node_id(), p.nonce, idn, get(2));
+                self.wire.push(Datagram { from_idx: ATTACKER, src: node_addr(ATTACKER), dst: node_addr(get(0)), dst_id: denr.node_id(), bytes });
+                true
+            }
+            // hcraft handshake CLAIMED_SRC SIGNER DST CHAL_WIRE_K REC BODY
+            //   REC: none | own (attacker's record) | of:IDX (genuine record of node IDX) | stale:IDX
+            "handshake" => {
+                let (Some((_, senr)), Some((skey, _)), Some((_, denr))) =
+                    (self.key_for_idx(get(0)), self.key_for_idx(get(1)), self.key_for_idx(get(2))) else { return false };
+                // `w`: the latest WHOAREYOU emitted by DST
+                let k = if args.get(3) == Some(&"w") {
+                    self.wire.iter().rposition(|d| d.from_idx == get(2) && packet_decode(&d.dst_id, ProtocolIdentity::default(), &d.bytes)
+                        .map(|(q, _)| matches!(q.kind, PacketKind::WhoAreYou { .. })).unwrap_or(false)).unwrap_or(usize::MAX)
+                } else { get(3) as usize };
+                let Some(d) = self.wire.get(k).cloned() else { return false };
+                // challenge data = authenticated data of that WHOAREYOU as its recipient sees it
+                let Ok((p, aad)) = packet_decode(&d.dst_id, ProtocolIdentity::default(), &d.bytes) else { return false };
+                if !matches!(p.kind, PacketKind::WhoAreYou { .. }) {
+                    return false;
+                }
+                let rec: Option<Enr> = match args.get(4).copied().unwrap_or("none") {
+                    "none" => None,
+                    "own" => self.attacker_enr.clone(),
+                    s if s.starts_with("of:") => self.key_for_idx(s[3..].parse().unwrap_or(0)).map(|x| x.1),
+                    s if s.starts_with("stale:") => self.key_for_idx(s[6..].parse().unwrap_or(0)).map(|(k, e)| {
+                        make_enr(&k, 0, e.udp4_socket().map(|s| (*s.ip(), s.port())), None, 0)
+                    }),
+                    _ => None,
+                };
+                let body = Request { id: rid_bytes(900_000 + self.wire.len() as u64), body: body_of(get(5).max(1)) }.encode();
+                let nonce: [u8; 12] = r.bytes(12).try_into().unwrap();
+                let Some((bytes, keys, _eph)) = hf::craft_handshake(senr.node_id(), &skey, &denr, &aad, rec, nonce, &body) else { return false };
+                // the attacker knows the keys it derived; what it seals is recorded as sealed by it
+                self.ledger.sealed.insert((keys.initiator_key, body));
+                stats.bump("h.craft.handshake-built");
+                self.wire.push(Datagram { from_idx: ATTACKER, src: node_addr(ATTACKER), dst: node_addr(get(2)), dst_id: denr.node_id(), bytes });
+                true
+            }
+            _ => false,
+        }
+    }
+}
+
+// ---------------------------------------------------------------------------------------------
+// generator
+
+pub fn gen_case(rng: &mut Rng, tier: &str, profile: &str, stats: &mut Stats) -> Vec<String> {
+    let mut ops = Vec::new();
+    let n = rng.range(2, 3);
+    let retries = rng.range(1, 2);
+    let timeout = 400;
+    ops.push(format!("hworld {} {} {} 1000 86400000", n, retries, timeout));
+    let steps = if tier == "thorough" { rng.range(60, 120) } else { rng.range(40, 90) };
+    let mut rid = 1u64;
+    let mut emitted = 0u64; // lower bound on the number of wire entries so far
+    let adversarial = profile == "C01" || profile == "C02" || profile == "C03" || rng.chance(1, 2);
+    let other = |rng: &mut Rng, x: u64| -> u64 { let mut y = rng.range(1, n); if y == x { y = x % n + 1; } y };
+    for _ in 0..steps {
+        match rng.below(100) {
+            0..=13 => {
+                let x = rng.range(1, n);
+                let y = other(rng, x);
+                ops.push(format!("hreq {} {} {} {} {}", x, y, if rng.chance(3, 4) { "enr" } else { "raw" }, rid, rng.range(1, 4)));
+                rid += 1;
+                emitted += 1;
+            }
+            14..=55 => { ops.push("hdel next".into()); emitted += 1; }
+            56..=58 => ops.push("hdel skip".into()),
+            59..=62 => {
+                // duplicate / reordered delivery of an earlier datagram, sometimes from a foreign address
+                if emitted > 0 {
+                    let k = rng.below(emitted);
+                    if rng.chance(1, 4) { ops.push(format!("hdel {} {}", k, rng.range(1, 9))); } else { ops.push(format!("hdel {}", k)); }
+                    emitted += 1;
+                }
+            }
+            63..=72 => {
+                let x = rng.range(1, n);
+                let what = match rng.below(6) { 0 => "none", 1 => "stale", _ => "known" };
+                ops.push(format!("hwru {} next {}", x, what));
+                emitted += 1;
+            }
+            73..=84 => {
+                let x = rng.range(1, n);
+                let kind = match rng.below(10) { 0 => "nodes1", 1 => "nodes3", 2 => "nodes0", 3 => "talk", 4 => "nodesbad", _ => "pong" };
+                ops.push(format!("hresp {} next {}", x, kind));
+                emitted += 1;
+            }
+            85..=88 => ops.push(format!("hadv {}", match rng.below(5) { 0 => 401, 1 => 150, 2 => 399, 3 => 250, _ => 20 })),
+            _ => {
+                if !adversarial { ops.push("hdel next".into()); emitted += 1; continue; }
+                let y = rng.range(1, n);
+                let x = other(rng, y);
+                match rng.below(10) {
+                    0..=2 => {
+                        // forgery attempt: random packet claiming src = X from the attacker's address,
+                        // the victim's application answers the query, the attacker answers the
+                        // challenge with a handshake of its own making
+                        ops.push(format!("hcraft random {} {}", x, y));
+                        ops.push("hdel last 9".into());
+                        ops.push(format!("hwru {} next {}", y, match rng.below(3) { 0 => "none", 1 => "stale", _ => "known" }));
+                        let rec = match rng.below(4) { 0 => "none".to_string(), 1 => "own".to_string(), 2 => format!("of:{}", x), _ => format!("stale:{}", x) };
+                        let signer = if rng.chance(1, 6) { x } else { 9 };
+                        ops.push(format!("hcraft handshake {} {} {} w {} 1", x, signer, y, rec));
+                        ops.push("hdel last 9".into());
+                        emitted += 4;
+                    }
+                    3..=4 => {
+                        // a WHOAREYOU echoing the nonce of the victim's latest datagram, from the
+                        // right or a foreign address; sometimes twice
+                        ops.push(format!("hcraft whoareyou {} r {}", y, rng.below(3)));
+                        if rng.chance(1, 2) { ops.push(format!("hdel last {}", x)); } else { ops.push("hdel last 9".into()); }
+                        if rng.chance(1, 3) { ops.push(format!("hcraft whoareyou {} r 0", y)); ops.push(format!("hdel last {}", x)); }
+                        emitted += 2;
+                    }
+                    5..=6 => {
+                        if emitted > 0 {
+                            let rec = match rng.below(4) { 0 => "none".to_string(), 1 => "own".to_string(), 2 => format!("of:{}", x), _ => format!("stale:{}", x) };
+                            ops.push(format!("hcraft handshake {} 9 {} w {} 1", x, y, rec));
+                            ops.push(format!("hdel last {}", if rng.chance(1, 2) { x } else { 9 }));
+                        }
+                    }
+                    _ => {
+                        if emitted > 0 {
+                            let how = match rng.below(4) { 0 => "flip", 1 => "trunc", 2 => "extend", _ => "splice" };
+                            ops.push(format!("hmut {} {} {}", rng.below(emitted), how, rng.below(2000)));
+                            ops.push("hdel last".into());
+                        }
+                    }
+                }
+                emitted += 1;
+            }
+        }
+    }
+    // drain: deliver everything still in flight, answer what is pending, then go quiet
+    for _ in 0..rng.range(0, 12) {
+        ops.push("hdel next".into());
+        if rng.chance(1, 3) { ops.push(format!("hwru {} next known", rng.range(1, n))); }
+        if rng.chance(1, 3) { ops.push(format!("hresp {} next pong", rng.range(1, n))); }
+    }
+    ops.push("hquiet".into());
+    stats.bump("gen.cases");
+    ops
 }
